@@ -74,13 +74,15 @@ var c02Table = map[string]c02Row{
 }
 
 func checkC02(c *Ctx, r *Report) {
-	r.Explain = "Decides structural necessary conditions of 'no document content outside the reader's channels': (R1) every access gate's verdict is honoured — on the unauthorised edge a function returns only the gate's redacted stub, a zero value or an error, error-valued gates propagate on every path, and the channel set each gate judges is the revision's own channel set (from the revision cache entry, the revision-channel lookup or the revision tree), never the document's current channels; (R2) containment — every call that hands out revision bodies or attachment bytes without a user check sits in a function that is classified (gating / forwards to a gating callee / internal write, import, resync or cache-loader path / operates on an already gated revision) and the classification is verified; a new unclassified caller is a violation (fail-closed who-may-read rule); (R3) all-docs — in enumeration mode a row is produced only on the edge where the document's channels intersect the user's, explicit keys are filtered by the document's channel set, bodies come only from the gated Get1xRevAndChannels and the user's channels come from the inherited-channel computation; (R4) backups of a superseded revision are stamped with the channels the document had before the update; (R5) a long-lived replication connection that reloads its user also re-subscribes to the user's (new) roles; (R6) REST handlers that reach an ungated document read are registered with admin privileges only; (R7) every replication message handler runs behind the user refresh unless listed with the reason it makes no channel decision. Not decided: correctness of the channel values stored on cache entries (partly C16), existence leaks through timing or error text, heap-mediated flows beyond one function, EE-only files."
+	r.Explain = "Decides structural necessary conditions of 'no document content outside the reader's channels': (R1) every access gate's verdict is honoured — on the unauthorised edge a function returns only the gate's redacted stub, a zero value or an error, error-valued gates propagate on every path, and the channel set each gate judges is the revision's own channel set (from the revision cache entry, the revision-channel lookup or the revision tree), never the document's current channels; (R2) containment — every call that hands out revision bodies or attachment bytes without a user check sits in a function that is classified (gating / forwards to a gating callee / internal write, import, resync or cache-loader path / operates on an already gated revision) and the classification is verified; a new unclassified caller is a violation (fail-closed who-may-read rule); (R3) all-docs — in enumeration mode a row is produced only on the edge where the document's channels intersect the user's, explicit keys are filtered by the document's channel set, bodies come only from the gated Get1xRevAndChannels and the user's channels come from the inherited-channel computation; (R4) backups of a superseded revision are stamped with the channels the document had before the update; (R5) a long-lived replication connection that reloads its user also re-subscribes to the user's (new) roles; (R6) REST handlers that reach an ungated document read are registered with admin privileges only; (R7) every replication message handler runs behind the user refresh unless listed with the reason it makes no channel decision.; (R8) the document's current channel set is read only by the listed functions, each handling the current revision — no loader falls back to it for another revision; (R9) the doc-id-filtered changes path examines a channel-removal record only for channels the requester can see. Not decided: correctness of the channel values stored on cache entries (partly C16), existence leaks through timing or error text, heap-mediated flows beyond one function, EE-only files."
 	c02R1(c, r)
 	c02R2(c, r)
 	c02R3(c, r)
 	c02R4R5(c, r)
 	c02R6(c, r)
 	c02R7(c, r)
+	c02R8(c, r)
+	c02R9(c, r)
 }
 
 func c02R1(c *Ctx, r *Report) {
